@@ -7,6 +7,7 @@ from typing import Any, Dict, List, Tuple
 
 from .. import symt, tae
 from ..core import Ctx
+from ..index import AnalysisError
 from ..ring import Rat, reset_relations
 from ..symt import InterpError, STensor, Unsupported, to_rat
 from .gridsym import fresh_facts
@@ -213,3 +214,44 @@ def run_compose(ctx: Ctx) -> None:
                                        f"v <- compose_svfs(compose_flows(flow, expv(v, inverse=True)), v) on the given flow")
                     return True, ""
                 _guard(ctx, "T4.logv-iteration", f"D={D}:ac={ac}:bch_terms={bch}", fLog, f"logv iteration D={D} align_corners={ac} bch_terms={bch}", thit)
+
+
+def run_compose_dtype(ctx: Ctx) -> None:
+    """compose_flows on float64 fields: exactness 'up to rounding' of the field's precision needs every operand in that precision."""
+    prog = ctx.prog
+    fC = prog.func("deepali.core.flow", "compose_flows")
+    ctx.fn(fC)
+    ctx.rule("T4.dtype", "compose_flows(u, v) on float64 (float32) fields: the field sampled and the positions handed to torch.grid_sample are of "
+                         "the fields' dtype, no tensor computed in a narrower float type enters the arithmetic (promotion / cast events of the "
+                         "dtype-tracking interpreter: identity coordinates built in float32 and cast up are such an event), result in that dtype")
+    for D, shape in ((2, (3, 4)), (3, (2, 3, 2))):
+        for ac in (True, False):
+            for dtype in (symt.DOUBLE, symt.FLOAT):
+                def th(D=D, shape=shape, ac=ac, dtype=dtype):
+                    reset_relations()
+                    fresh_facts()
+                    it = make_interp(ctx)
+                    u0 = STensor.symbols("u", [1, D] + list(shape))
+                    v0 = STensor.symbols("v", [1, D] + list(shape))
+                    u = STensor(list(u0.flat()), list(range(u0.numel())), list(u0.shape), dtype)
+                    v = STensor(list(v0.flat()), list(range(v0.numel())), list(v0.shape), dtype)
+                    del symt.GRID_SAMPLE_CALLS[:]
+                    del symt.PRECISION_EVENTS[:]
+                    del symt.WIDENING_EVENTS[:]
+                    out = it.call(fC, u, v, align_corners=ac)
+                    calls = list(symt.GRID_SAMPLE_CALLS)
+                    if not calls:
+                        raise AnalysisError("T4.dtype: no sampling call")
+                    for k, c in enumerate(calls):
+                        if c["input"].dtype.name != dtype.name or c["grid"].dtype.name != dtype.name:
+                            return False, (f"call {k}: torch.grid_sample gets a {c['input'].dtype.name} field and {c['grid'].dtype.name} positions "
+                                           f"for {dtype.name} fields")
+                    evs = list(symt.PRECISION_EVENTS) + list(symt.WIDENING_EVENTS)
+                    if evs:
+                        n, w = evs[0]
+                        return False, (f"a {n} tensor is mixed into {w} arithmetic ({len(evs)} events): part of the composition of "
+                                       f"{dtype.name} fields is carried out in {n} precision")
+                    if out.dtype.name != dtype.name:
+                        return False, f"result dtype {out.dtype.name} for {dtype.name} fields"
+                    return True, ""
+                _guard(ctx, "T4.dtype", f"D={D}:ac={ac}:{dtype.name}", fC, f"compose_flows dtype={dtype.name} D={D} align_corners={ac}", th)
